@@ -184,9 +184,12 @@ fn write_block(output: &mut Sink, block: &Block, options: &SstOptions) -> (r: Re
 fn pack_metadata(md: &BlockMetadata) -> (r: Vec<u8>)
     ensures r@.len() <= 27
 { unimplemented!() }
-// `Filter::defer_insert(key)`
+// `Filter::defer_insert(key)`: SipHash of the key (uninterpreted)
+uninterp spec fn hash_of(key: Seq<u8>) -> u64;
 #[verifier::external_body]
-fn filter_hash(key: &[u8]) -> (r: u64) { unimplemented!() }
+fn filter_hash(key: &[u8]) -> (r: u64)
+    ensures r == hash_of(key@)
+{ unimplemented!() }
 
 // only the fields these methods touch (the repository's struct also holds the path)
 struct SstBuilder {
@@ -218,9 +221,12 @@ impl SstBuilder {
         else { self.last_key@ == s.last().key && self.last_timestamp == s.last().ts }
     }
     spec fn sizes_ok(&self) -> bool { self.bytes_written <= 0x8100_0000 }
+    // the hash of every accepted key has been queued for the bloom filter (seal inserts every queued hash; unit sst_sbbf:
+    // an inserted hash is always found) -- the premise "the filter never hides a key of the table" of Sst::load
+    spec fn filter_ok(&self) -> bool { forall|i: int| 0 <= i < self.stream().len() ==> self.filter@.contains(hash_of(#[trigger] self.stream()[i].key)) }
     // the invariant between calls
     spec fn swf(&self) -> bool {
-        &&& self.flushed_ok() && self.last_ok() && self.sizes_ok() && sorted(self.stream())
+        &&& self.flushed_ok() && self.last_ok() && self.sizes_ok() && sorted(self.stream()) && self.filter_ok()
         &&& self.block_builder is Some ==> self.block_builder->Some_0.bwf() && self.cur().len() >= 1
         &&& self.block_builder is None ==> self.done().len() == 0
         &&& self.done().len() > 0 ==> forall|j: int| 0 <= j < self.cur().len() ==> lex_le(self.divs().last(), #[trigger] self.cur()[j].key)
@@ -238,7 +244,7 @@ impl SstBuilder {
 //@ post <<
         final(self).last_key@ == key@, final(self).last_timestamp == timestamp,
         final(self).block_builder == old(self).block_builder, final(self).index_block == old(self).index_block, final(self).output == old(self).output,
-        final(self).bytes_written == old(self).bytes_written, final(self).options == old(self).options,
+        final(self).bytes_written == old(self).bytes_written, final(self).options == old(self).options, final(self).filter == old(self).filter,
 //@ >>
 //@ end
 }
@@ -302,6 +308,7 @@ impl SstBuilder {
             && final(self).block_builder->Some_0.ents() == Seq::<Ent>::empty(),
         final(self).output == old(self).output, final(self).index_block == old(self).index_block, final(self).last_key == old(self).last_key,
         final(self).last_timestamp == old(self).last_timestamp, final(self).bytes_written == old(self).bytes_written, final(self).options == old(self).options,
+        final(self).filter == old(self).filter,
         r is Err ==> final(self).block_builder == old(self).block_builder,
 //@ >>
 //@ end
@@ -324,7 +331,7 @@ impl SstBuilder {
             && final(self).flushed_ok() && final(self).stream() == old(self).stream()
             && final(self).last_key == old(self).last_key && final(self).last_timestamp == old(self).last_timestamp
             && lex_le(final(self).divs().last(), key@)
-            && final(self).bytes_written <= 0x8100_0000 && final(self).options == old(self).options,
+            && final(self).bytes_written <= 0x8100_0000 && final(self).options == old(self).options && final(self).filter == old(self).filter,
 //@ >>
 //@ bodystart <<
         let ghost o = *self;
@@ -392,7 +399,7 @@ impl SstBuilder {
         r is Ok ==> final(self).block_builder is Some && final(self).block_builder->Some_0.bwf(),
         r is Ok ==> final(self).flushed_ok(),
         r is Ok ==> final(self).stream() == old(self).stream(),
-        r is Ok ==> final(self).sizes_ok(),
+        r is Ok ==> final(self).sizes_ok() && final(self).filter == old(self).filter,
         r is Ok ==> final(self).last_key == old(self).last_key && final(self).last_timestamp == old(self).last_timestamp,
         r is Ok && final(self).done().len() > 0 ==> lex_le(final(self).divs().last(), key@),
         r is Ok && final(self).done().len() > 0 ==> forall|j: int| 0 <= j < final(self).cur().len() ==> lex_le(final(self).divs().last(), #[trigger] final(self).cur()[j].key),
@@ -416,6 +423,9 @@ impl SstBuilder {
 
 //@ extract sst/src/lib.rs | impl Builder for SstBuilder :: fn put
 //@ ret r
+//@ rewrite-re? X9 `self\.last_key != key\b` => `!bytes_eq(self.last_key.as_slice(), key)`
+//@ rewrite-re? X9 `self\.last_key == key\b` => `bytes_eq(self.last_key.as_slice(), key)`
+//@ rewrite-re? X9 `self\.last_key\.as_slice\(\) != key\b` => `!bytes_eq(self.last_key.as_slice(), key)`
 //@ rewrite-re X15 `let block = self\.get_block\(key, timestamp\)\?;\s*block\.put\(key, timestamp, value\)\?;` => `self.get_block(key, timestamp)?; self.block_builder.as_mut().unwrap().put(key, timestamp, value)?;`
 //@ rewrite X7 `self.filter.push(Filter::defer_insert(key));` => `self.filter.push(filter_hash(key));`
 //@ pre <<
@@ -429,6 +439,23 @@ impl SstBuilder {
 //@ bodystart <<
         let ghost o = *self;
 //@ >>
+//@ after? `self.filter.push(filter_hash(key));` <<
+        proof {
+            let st = self.stream();
+            assert forall|i: int| 0 <= i < st.len() implies self.filter@.contains(hash_of(#[trigger] st[i].key)) by {
+                if i < o.stream().len() {
+                    let h = hash_of(o.stream()[i].key);
+                    assert(o.filter@.contains(h));
+                    let w = choose|w: int| 0 <= w < o.filter@.len() && o.filter@[w] == h;
+                    assert(self.filter@[w] == h);
+                } else {
+                    assert(self.filter@[self.filter@.len() - 1] == hash_of(key@));
+                    assert(st[i].key == key@);
+                }
+            }
+            assert(self.filter_ok());
+        }
+//@ >>
 //@ after `self.get_block(key, timestamp)?; self.block_builder.as_mut().unwrap().put(key, timestamp, value)?;` <<
         proof {
             let e = Ent { key: key@, ts: timestamp, val: Some(value@) };
@@ -440,6 +467,9 @@ impl SstBuilder {
 
 //@ extract sst/src/lib.rs | impl Builder for SstBuilder :: fn del
 //@ ret r
+//@ rewrite-re? X9 `self\.last_key != key\b` => `!bytes_eq(self.last_key.as_slice(), key)`
+//@ rewrite-re? X9 `self\.last_key == key\b` => `bytes_eq(self.last_key.as_slice(), key)`
+//@ rewrite-re? X9 `self\.last_key\.as_slice\(\) != key\b` => `!bytes_eq(self.last_key.as_slice(), key)`
 //@ rewrite-re X15 `let block = self\.get_block\(key, timestamp\)\?;\s*block\.del\(key, timestamp\)\?;` => `self.get_block(key, timestamp)?; self.block_builder.as_mut().unwrap().del(key, timestamp)?;`
 //@ rewrite X7 `self.filter.push(Filter::defer_insert(key));` => `self.filter.push(filter_hash(key));`
 //@ pre <<
@@ -451,6 +481,23 @@ impl SstBuilder {
 //@ >>
 //@ bodystart <<
         let ghost o = *self;
+//@ >>
+//@ after? `self.filter.push(filter_hash(key));` <<
+        proof {
+            let st = self.stream();
+            assert forall|i: int| 0 <= i < st.len() implies self.filter@.contains(hash_of(#[trigger] st[i].key)) by {
+                if i < o.stream().len() {
+                    let h = hash_of(o.stream()[i].key);
+                    assert(o.filter@.contains(h));
+                    let w = choose|w: int| 0 <= w < o.filter@.len() && o.filter@[w] == h;
+                    assert(self.filter@[w] == h);
+                } else {
+                    assert(self.filter@[self.filter@.len() - 1] == hash_of(key@));
+                    assert(st[i].key == key@);
+                }
+            }
+            assert(self.filter_ok());
+        }
 //@ >>
 //@ after `self.get_block(key, timestamp)?; self.block_builder.as_mut().unwrap().del(key, timestamp)?;` <<
         proof {
